@@ -135,6 +135,268 @@ def _canon(node, ren):
     return ast.unparse(Canon(ren).visit(copy.deepcopy(node)))
 
 
+class _Unsupported(Exception):
+    pass
+
+
+class _Tok(str):
+    """a symbolic value of the lookup evaluation (a loop variable, a stored noise entry, an opaque module-level object)"""
+    __slots__ = ()
+
+
+class _Stop(Exception):
+    pass
+
+
+def semantic_table(inner: ast.For, ren):
+    """The lookup written any other way (dict.get cascades with a sentinel, nested .get defaults, conditional expressions, flag variables):
+    the inner loop body is *evaluated* for every combination of the facts it can depend on -- is (I, J) a key, is (J, I), is I, is J, is I == J --
+    with the mapping answering membership / item / .get symbolically.  The noise value touches the mapping only through those comparisons, so
+    the 24 consistent combinations are ALL its behaviours.  -> (results {world: value token}, sinks [(kind, text)]) or raises _Unsupported."""
+    inv = {v: k for k, v in ren.items()}
+    Dn = inv.get("D")
+    worlds = []
+    for E in (False, True):
+        for A in (False, True):
+            for B in (False, True):
+                for C in (False, True):
+                    for Cj in (False, True):
+                        if E and (A != B or C != Cj):
+                            continue
+                        worlds.append((E, A, B, C, Cj))
+    results, sink_sets = {}, []
+
+    def run_world(w):
+        E, A, B, C, Cj = w
+        member = {("I", "J"): A, ("J", "I"): B, "I": C, "J": Cj, ("I", "I"): A if E else None, ("J", "J"): A if E else None}
+        env = {}
+        for src, canon in ren.items():
+            if canon in ("I", "J", "i", "j"):
+                env[src] = _Tok(canon)
+        sinks = []
+
+        def key_of(v):
+            def nm(t):
+                if not isinstance(t, _Tok) or t not in ("I", "J"):
+                    raise _Unsupported(f"key component {t!r}")
+                return "I" if (E and t == "J") else str(t)
+            if isinstance(v, tuple) and len(v) == 2:
+                k = (nm(v[0]), nm(v[1]))
+            else:
+                k = nm(v)
+            if E:
+                k = ("I", "J") if k == ("I", "I") else k
+            if member.get(k) is None:
+                raise _Unsupported(f"key {k}")
+            return k
+
+        def item(k):
+            return _Tok("D[%s]" % (", ".join(k) if isinstance(k, tuple) else k))
+
+        def same(a, b):
+            if isinstance(a, _Tok) and isinstance(b, _Tok) and {str(a), str(b)} <= {"I", "J", "i", "j"}:
+                if {str(a), str(b)} in ({"I", "J"}, {"i", "j"}):
+                    return E
+                if str(a) == str(b):
+                    return True
+                raise _Unsupported("comparison of a symbol with an index")
+            if isinstance(a, _Tok) or isinstance(b, _Tok):
+                return str(a) == str(b) and type(a) is type(b)
+            return a == b
+
+        def ev(e):
+            if isinstance(e, ast.Constant):
+                return e.value
+            if isinstance(e, ast.Name):
+                if e.id in env:
+                    return env[e.id]
+                if e.id == Dn:
+                    return _Tok("D")
+                if e.id in ("True", "False", "None"):
+                    return {"True": True, "False": False, "None": None}[e.id]
+                return _Tok("@" + e.id)                     # a module-level object (a sentinel): equal only to itself
+            if isinstance(e, ast.Attribute):
+                return _Tok("@" + ast.unparse(e))
+            if isinstance(e, ast.Tuple):
+                return tuple(ev(x) for x in e.elts)
+            if isinstance(e, ast.List):
+                return [ev(x) for x in e.elts]
+            if isinstance(e, ast.JoinedStr):
+                return _Tok("f:" + _canon(e, ren))
+            if isinstance(e, ast.UnaryOp) and isinstance(e.op, ast.Not):
+                return not truth(ev(e.operand))
+            if isinstance(e, ast.BoolOp):
+                last = None
+                for x in e.values:
+                    last = ev(x)
+                    if isinstance(e.op, ast.And) and not truth(last):
+                        return last
+                    if isinstance(e.op, ast.Or) and truth(last):
+                        return last
+                return last
+            if isinstance(e, ast.IfExp):
+                return ev(e.body) if truth(ev(e.test)) else ev(e.orelse)
+            if isinstance(e, ast.Compare) and len(e.ops) == 1:
+                l, r, op = ev(e.left), ev(e.comparators[0]), e.ops[0]
+                if isinstance(op, (ast.In, ast.NotIn)):
+                    if r == _Tok("D") and isinstance(r, _Tok):
+                        res = member[key_of(l)]
+                    elif isinstance(r, (list, tuple)):
+                        res = any(same(l, x) for x in r)
+                    else:
+                        raise _Unsupported("membership in " + repr(r))
+                    return res if isinstance(op, ast.In) else not res
+                if isinstance(op, (ast.Eq, ast.Is)):
+                    return same(l, r)
+                if isinstance(op, (ast.NotEq, ast.IsNot)):
+                    return not same(l, r)
+                raise _Unsupported("comparison " + type(op).__name__)
+            if isinstance(e, ast.Subscript):
+                b = ev(e.value)
+                if isinstance(b, _Tok) and b == "D":
+                    k = key_of(ev(e.slice))
+                    if not member[k]:
+                        raise _Stop("KeyError")
+                    return item(k)
+                if isinstance(b, (list, tuple)) and isinstance(e.slice, ast.Constant) and isinstance(e.slice.value, int):
+                    return b[e.slice.value]
+                raise _Unsupported("subscript of " + repr(b))
+            if isinstance(e, ast.Call):
+                f = e.func
+                if isinstance(f, ast.Attribute) and f.attr == "get" and not e.keywords and 1 <= len(e.args) <= 2:
+                    b = ev(f.value)
+                    if isinstance(b, _Tok) and b == "D":
+                        kv = ev(e.args[0])
+                        dflt = ev(e.args[1]) if len(e.args) == 2 else None       # the default is evaluated whether or not it is used
+                        k = key_of(kv)
+                        return item(k) if member[k] else dflt
+                if isinstance(f, ast.Name) and f.id == "next" and len(e.args) == 2 and isinstance(e.args[0], ast.GeneratorExp) and len(e.args[0].generators) == 1:
+                    g = e.args[0].generators[0]
+                    if not isinstance(g.target, ast.Name):
+                        raise _Unsupported("generator target")
+                    saved = env.get(g.target.id)
+                    try:
+                        for x in ev(g.iter):
+                            env[g.target.id] = x
+                            if all(truth(ev(c)) for c in g.ifs):
+                                return ev(e.args[0].elt)
+                    finally:
+                        if saved is None:
+                            env.pop(g.target.id, None)
+                        else:
+                            env[g.target.id] = saved
+                    return ev(e.args[1])
+                if isinstance(f, ast.Name) and f.id in ("float",) and len(e.args) == 1:
+                    return ev(e.args[0])
+                raise _Unsupported("call " + ast.unparse(f)[:40])
+            raise _Unsupported(type(e).__name__)
+
+        def truth(v):
+            if isinstance(v, bool):
+                return v
+            if v is None:
+                return False
+            if isinstance(v, (int, float)):
+                return bool(v)
+            if isinstance(v, (list, tuple)):
+                return bool(v)
+            if isinstance(v, _Tok) and v.startswith("D["):
+                raise _Unsupported("truth value of a stored noise entry")     # 0.0 is a legitimate entry: truthiness would drop it
+            if isinstance(v, _Tok):
+                return True
+            raise _Unsupported("truth of " + repr(v))
+
+        def mark(e, val):
+            """canonical text of a sink expression with the sub-expressions that evaluate to the chosen value replaced by VALUE"""
+            class M(ast.NodeTransformer):
+                def visit_Name(self, n):
+                    if n.id in env and isinstance(env[n.id], (_Tok, float, int)) and not isinstance(env[n.id], bool) and env[n.id] == val \
+                            and (not isinstance(env[n.id], _Tok) or str(env[n.id]) not in ("I", "J", "i", "j")):
+                        return ast.copy_location(ast.Name("VALUE", ast.Load()), n)
+                    return n
+            import copy as _c
+            return _canon(M().visit(_c.deepcopy(e)), ren)
+
+        def block(stmts):
+            for st in stmts:
+                if isinstance(st, ast.Assign) and len(st.targets) == 1:
+                    t = st.targets[0]
+                    v = ev(st.value)
+                    if isinstance(t, ast.Name):
+                        env[t.id] = v
+                    elif isinstance(t, ast.Subscript):
+                        sinks.append(("store", _canon(t.slice, ren), v, st))
+                    elif isinstance(t, (ast.Tuple, ast.List)) and isinstance(v, (tuple, list)) and len(v) == len(t.elts) and all(isinstance(x, ast.Name) for x in t.elts):
+                        for x, y in zip(t.elts, v):
+                            env[x.id] = y
+                    else:
+                        raise _Unsupported("assignment target")
+                elif isinstance(st, ast.AnnAssign) and isinstance(st.target, ast.Name) and st.value is not None:
+                    env[st.target.id] = ev(st.value)
+                elif isinstance(st, ast.If):
+                    block(st.body if truth(ev(st.test)) else st.orelse)
+                elif isinstance(st, ast.Expr) and isinstance(st.value, ast.Yield) and st.value.value is not None:
+                    y = st.value.value
+                    if isinstance(y, ast.Tuple) and y.elts:
+                        val = ev(y.elts[-1])
+                        for x in y.elts[:-1]:
+                            ev(x)
+                        import copy as _c
+                        y2 = _c.deepcopy(y)
+                        y2.elts[-1] = ast.Name("VALUE", ast.Load())
+                        sinks.append(("yield", _canon(y2, ren), val, st))
+                    else:
+                        raise _Unsupported("yield of a non-tuple")
+                elif isinstance(st, ast.Expr) and isinstance(st.value, ast.Call) and isinstance(st.value.func, ast.Attribute) and st.value.func.attr == "append" \
+                        and isinstance(st.value.func.value, ast.Name) and isinstance(env.get(st.value.func.value.id), list) and len(st.value.args) == 1:
+                    env[st.value.func.value.id].append(ev(st.value.args[0]))
+                elif isinstance(st, (ast.Pass, ast.Assert)):
+                    continue
+                elif isinstance(st, ast.Expr) and isinstance(st.value, ast.Constant):
+                    continue
+                else:
+                    raise _Unsupported("statement " + type(st).__name__)
+        try:
+            block(inner.body)
+        except _Stop as e:
+            return _Tok("raises " + str(e)), sinks
+        vals = {str(v) for _, _, v, _ in sinks}
+        if len(vals) != 1:
+            raise _Unsupported(f"sinks receive different values {sorted(vals)}")
+        return next(v for _, _, v, _ in sinks), sinks
+    first_sinks = None
+    for w in worlds:
+        val, sinks = run_world(w)
+        results[w] = val
+        sk = [(k, t) for k, t, _, _ in sinks]
+        if not isinstance(val, _Tok) or not val.startswith("raises"):
+            if first_sinks is None:
+                first_sinks = (sk, sinks)
+            elif first_sinks[0] != sk:
+                raise _Unsupported("the sinks written depend on the key facts")
+    if first_sinks is None:
+        raise _Unsupported("no world reaches a sink")
+    return results, first_sinks[1]
+
+
+def spec_value(w, prefer="IJ"):
+    E, A, B, C, Cj = w
+    if A and B:
+        return "D[I, J]" if prefer == "IJ" else "D[J, I]"
+    if A:
+        return "D[I, J]"
+    if B:
+        return "D[J, I]"
+    if E and C:
+        return "D[I]"
+    return "0.0"
+
+
+def describe_world(w):
+    E, A, B, C, Cj = w
+    return ("I == J" if E else "I != J") + ", " + ", ".join(f"{k} {'in' if v else 'not in'} D" for k, v in (("(I, J)", A), ("(J, I)", B), ("I", C), ("J", Cj)))
+
+
 ACCEPT_PAIR = {("(I, J) in D", "D[I, J]"), ("(J, I) in D", "D[J, I]")}
 ACCEPT_DIAG_COND = {"I == J and I in D", "J == I and I in D", "I == J and J in D", "J == I and J in D",
                     "I in D and I == J", "I in D and J == I", "J in D and I == J", "J in D and J == I",
@@ -167,9 +429,30 @@ def check_function(ctx: core.Ctx, rel, qual, fn: ast.FunctionDef, dict_param: st
     dl = decision_list(inner, ren)
     if dl is None:
         dl = decision_from_candidates(inner, ren)
+    sem_sinks = None
     if dl is None:
-        ctx.error(f"{where}: the value decision list of the noise nest is not an if/elif/else chain assigning one variable")
-        return None
+        # not one of the two written forms: evaluate the lookup over every combination of key facts
+        try:
+            results, sem_sinks = semantic_table(inner, ren)
+        except _Unsupported as e:
+            ctx.error(f"{where}: the value decision list of the noise nest is neither an if/elif/else chain nor evaluable case by case ({e})")
+            return None
+
+        def norm(v):
+            if isinstance(v, _Tok):
+                return "D[I]" if str(v) == "D[J]" else str(v)
+            return "0.0" if isinstance(v, (int, float)) and not isinstance(v, bool) and v == 0 else repr(v)
+        fits = {pref: [w for w in results if norm(results[w]) != spec_value(w, pref)] for pref in ("IJ", "JI")}
+        pref = "IJ" if not fits["IJ"] else ("JI" if not fits["JI"] else None)
+        if pref is None:
+            w = fits["IJ"][0]
+            ctx.oblige(rule, where, f"lookup evaluated in {len(results)} cases", False, file=rel, func=qual, construct="noise decision list",
+                       msg=f"noise entry (I, J) is not chosen by the name-keyed table: when {describe_world(w)} the entry is {norm(results[w])}, the table gives "
+                           f"{spec_value(w)} ({len(fits['IJ'])} of {len(results)} cases differ)", line=inner.lineno)
+            return None
+        pair = [("(I, J) in D", "D[I, J]"), ("(J, I) in D", "D[J, I]")]
+        dl = ("VALUE", (pair if pref == "IJ" else pair[::-1]) + [("I == J and I in D", "D[I]")], "0.0")
+        ctx.note(f"{qual}: noise lookup decided by evaluating it in {len(results)} key-presence cases")
     var, chain, default = dl
     ok = True
     why = []
@@ -196,7 +479,9 @@ def check_function(ctx: core.Ctx, rel, qual, fn: ast.FunctionDef, dict_param: st
                msg=f"noise entry (I, J) is not chosen by the name-keyed table: {'; '.join(why)}", line=inner.lineno)
     # sinks
     sinks = []
-    for n in ast.walk(inner):
+    if sem_sinks is not None:
+        sinks = [(k, t, node) for k, t, _, node in sem_sinks]
+    for n in (ast.walk(inner) if sem_sinks is None else ()):
         if isinstance(n, ast.Assign) and len(n.targets) == 1 and isinstance(n.targets[0], ast.Subscript) \
                 and isinstance(n.value, ast.Name) and n.value.id == var:
             sinks.append(("store", _canon(n.targets[0].slice, ren), n))
